@@ -243,6 +243,9 @@ def run(ctx):
     # ---- R11 ---------------------------------------------------------------------
     _probe_handlers(ctx)
 
+    # ---- R12 ---------------------------------------------------------------------
+    _raw_hint_identity_only(ctx)
+
     # ---- R6 ----------------------------------------------------------------------
     ctx.rule('C11.R6', 'no generated wrapper puts the call-through (or a validator invocation) inside a try body: a '
              'user exception propagates unchanged; the only try statements are the PEP 525 forwarding handlers')
@@ -471,3 +474,86 @@ def _probe_handlers(ctx):
     ctx.ob('C11.R11', 'probe:siblings-agree', m.where(m.tree.body[0]), 'tester and raiser catch the same exception classes',
            len(kinds) <= 1, f'{[(qualname_of(f), c) for f, _, c in sites]}')
     ctx.floor('C11.R11', len(sites), 2, 'probe sites')
+
+
+#: modules whose functions receive the *raw* annotation, before (or while) it is validated to be a hint
+RAW_HINT_MODULES = ('beartype._check.convert.convmain', 'beartype._check.convert._convcoerce',
+                    'beartype._util.hint.utilhinttest', 'beartype._util.hint.nonpep.utilnonpeptest')
+
+
+def _dunder_dispatch_sites(fn, tainted):
+    """(node, what) for each operation in fn that dispatches to a user-definable dunder of a tainted bare name other than
+    hashing (R5): rich comparison, truth test, membership in a display (== on each element)."""
+    def is_t(e):
+        return isinstance(e, ast.Name) and e.id in tainted
+    for x in walk_shallow(fn):
+        if isinstance(x, ast.Compare):
+            operands = [x.left] + list(x.comparators)
+            for i, o in enumerate(x.ops):
+                a, b = operands[i], operands[i + 1]
+                if isinstance(o, (ast.Eq, ast.NotEq, ast.Lt, ast.LtE, ast.Gt, ast.GtE)) and (is_t(a) or is_t(b)):
+                    yield x, f'rich comparison `{norm(x)[:60]}` runs the __eq__/__ne__ of the raw object', (a.id if is_t(a) else b.id)
+                if isinstance(o, (ast.In, ast.NotIn)) and is_t(a) and isinstance(b, (ast.Tuple, ast.List)):
+                    yield x, f'membership in a display `{norm(x)[:60]}` runs the __eq__ of the raw object', a.id
+        tests = []
+        if isinstance(x, (ast.If, ast.While, ast.IfExp)):
+            tests.append(x.test)
+        elif isinstance(x, ast.Assert):
+            tests.append(x.test)
+        for t in tests:
+            stack = [t]
+            while stack:
+                e = stack.pop()
+                if isinstance(e, ast.BoolOp):
+                    stack.extend(e.values)
+                elif isinstance(e, ast.UnaryOp) and isinstance(e.op, ast.Not):
+                    stack.append(e.operand)
+                elif is_t(e):
+                    yield x, f'truth test of `{e.id}` runs the __bool__/__len__ of the raw object', e.id
+        if isinstance(x, ast.Call) and dotted(x.func) in ('bool', 'len') and x.args and is_t(x.args[0]):
+            yield x, f'`{norm(x)[:60]}` runs the __bool__/__len__ of the raw object', x.args[0].id
+
+
+def _raw_hint_identity_only(ctx):
+    """R12: on the way to validation the raw annotation is compared by identity only."""
+    repo = ctx.repo
+    ctx.rule('C11.R12', 'the functions that receive the raw annotation before it is validated (the sanifiers, the coercers and '
+             'the hint testers: every function of ' + ', '.join(RAW_HINT_MODULES) + ' with a parameter named hint) never '
+             'run a user-definable rich comparison, truth test or display membership on that parameter or on a value '
+             'returned by a call it was handed to — identity, isinstance and attribute reads only (a name already tested by isinstance against a builtin container earlier in the function is the builtin\'s business); an annotation whose '
+             '__eq__/__bool__ raises or returns a non-boolean (numpy array, ORM column) otherwise escapes decoration as a '
+             'bare ValueError instead of the decoration-time beartype exception')
+    n = 0
+    for q in RAW_HINT_MODULES:
+        m = repo.modules.get(q)
+        ctx.require(m is not None, f'anchor vanished: module {q}')
+        for fn in [x for x in ast.walk(m.tree) if isinstance(x, (ast.FunctionDef, ast.AsyncFunctionDef))]:
+            if 'hint' not in params_of(fn):
+                continue
+            tainted = {'hint'}
+            changed = True
+            while changed:
+                changed = False
+                for a in walk_shallow(fn):
+                    if isinstance(a, ast.Assign) and len(a.targets) == 1 and isinstance(a.targets[0], ast.Name) \
+                            and a.targets[0].id not in tainted:
+                        v = a.value
+                        src = (isinstance(v, ast.Name) and v.id in tainted) or (
+                            isinstance(v, ast.Call) and dotted(v.func) not in ('len', 'repr', 'type', 'id', 'isinstance', 'get_hint_pep_sign_or_none')
+                            and any(isinstance(e, ast.Name) and e.id in tainted for e in list(v.args) + [k.value for k in v.keywords])
+                            and a.targets[0].id.startswith('hint'))
+                        if src:
+                            tainted.add(a.targets[0].id)
+                            changed = True
+            # idiom: once the name was tested to be an instance of a builtin container (``isinstance(hint, tuple)``) its
+            # truth value and comparisons are the builtin's, not the user's
+            narrowed = {(dotted(c.args[0]), c.lineno, c.col_offset) for c in walk_shallow(fn)
+                        if isinstance(c, ast.Call) and dotted(c.func) == 'isinstance' and len(c.args) == 2
+                        and dotted(c.args[1]) in ('tuple', 'str', 'dict', 'list', 'frozenset', 'set', 'int', 'bool')}
+            sites = [(x, w) for x, w, nm in _dunder_dispatch_sites(fn, tainted)
+                     if not any(v == nm and (ln, col) <= (x.end_lineno, x.end_col_offset) for v, ln, col in narrowed)]
+            n += 1
+            ctx.ob('C11.R12', f'{q.rsplit(".", 1)[-1]}.{qualname_of(fn)}:raw-hint-identity-only', m.where(sites[0][0] if sites else fn),
+                   'the raw annotation is compared by identity only before it is validated', not sites,
+                   '; '.join(w for _, w in sites[:3]))
+    ctx.floor('C11.R12', n, 8, 'functions receiving the raw annotation')
